@@ -127,7 +127,7 @@ def table_of(w, c):
             if col == 'filename':
                 row.append(k)  # file names are random
             elif k in (3, 4):
-                obj = (w.interner if w.real else c._con.db.intern).lookup(k, n)  # noqa
+                obj = (w.interner).lookup(k, n)  # noqa
                 row.append((k, obj))
             else:
                 row.append((1 if k in (1, 2) else k, n))
